@@ -1248,6 +1248,11 @@ class Family:
                    ("if", [("cmp", "KW_IN", ("id", b.ident("viewer")),
                             ("tuple", [("lit", b.integer(), False), ("tuple", [("id", owner), ("lit", b.string(), False)])]))],
                     self.groups(1), None), "splitter read only inside a nested tuple")
+        # names that Python treats as soft keywords are ordinary identifiers (of Python and of the DSL); `type` also sorts before
+        # `typeId` but after it once a character is appended
+        yield Prog(b.ident("e_soft"), b.string("salt"), [b.ident("typeId"), b.ident("type")],
+                   ("if", [("cmp", "KW_EQ", ("id", b.ident("match")), ("lit", b.integer(), False))], self.groups(2),
+                    ("else", self.groups(1))), "fields named like soft keywords (type, match)")
         only = b.ident("only_field")
         yield Prog(b.ident("e2"), None, [only],
                    ("if", [("cmp", "KW_GT", ("id", only), ("lit", b.integer(), False))], self.groups(1), None),
